@@ -15,6 +15,8 @@ def variant(rng):
         "shape": rng.choice(["chain", "diamond"]),
         "ptrmeth": rng.random() < 0.5,
         "unsafe": rng.random() < 0.5,
+        # a file-level directive in every file of d scopes d's own diagnostics; what d exports is not its business
+        "dign": rng.choice([None, None, "IMM", "ALL", "TONL, PKGO, CTOR"]),
     }
 
 
@@ -38,8 +40,13 @@ def d_src(v):
            "// PM is restricted."] + al + [("func (s *S) PM(n int) int { return n }" if v["ptrmeth"] else "func (s S) PM(n int) int { return n }"), "",
            "// hidden is an unexported immutable type that leaks through an exported function.", "// @immutable", "type hidden struct{ X int }", "",
            "// Hidden hands out a hidden.", "func Hidden() *hidden { return &hidden{} }", "",
-           "// Probe is a test helper on the unexported type.", "// @testonly", "func (h *hidden) Probe(n int) int { return n }", ""]
-    return "\n".join(ls) + "\n"
+           "// Probe is a test helper on the unexported type.", "// @testonly", "func (h *hidden) Probe(n int) int { return n }", "",
+           "// S3 has methods named like those of S, annotated on their own.", "type S3 struct{}", "",
+           "// TM of S3 is a test helper.", "// @testonly", "func (s S3) TM(n int) int { return n }", "",
+           "// PM of S3 is restricted."] + al + ["func (s S3) PM(n int) int { return n }", "",
+           "// S4 has a method named TM that is no helper.", "type S4 struct{}", "", "func (s S4) TM(n int) int { return n }", ""]
+    hdr = ["// @ignore " + v["dign"]] if v.get("dign") else []
+    return "\n".join(hdr + ls) + "\n"
 
 
 def allowed(v, pkg):
@@ -69,6 +76,9 @@ def use_lines(v, pkg, base):
         ("PKGO03", "\td.PT{X: %d}.Purge()" % (base + 17)),
         ("IMM01", "\td.Hidden().X = %d" % (base + 15)),
         ("TONL03", "\t_ = d.Hidden().Probe(%d)" % (base + 16)),
+        ("TONL03", "\t_ = d.S3{}.TM(%d)" % (base + 18)),
+        (None if allowed(v, pkg) else "PKGO03", "\t_ = d.S3{}.PM(%d)" % (base + 19)),
+        (None, "\t_ = d.S4{}.TM(%d)" % (base + 20)),
     ]
     return out
 
@@ -76,11 +86,17 @@ def use_lines(v, pkg, base):
 def build(v, sid):
     expect = set()
     pkgs = [{"path": "m/d", "name": "d", "files": [
-        {"name": "d/a_ops.go", "src": "package d\n\n// Purge is for d only.\n// @packageonly\nfunc (p PT) Purge() {}\n"},
+        {"name": "d/a_ops.go", "src": ("// @ignore %s\n" % v["dign"] if v.get("dign") else "") + "package d\n\n// Purge is for d only.\n// @packageonly\nfunc (p PT) Purge() {}\n"},
         {"name": "d/d.go", "src": d_src(v)}]}]
     # u: uses d; declares its own annotated type and an API that hands out d.T
     # e starts exactly like d (same package-name length): its first declaration has the same offset in its file as d's
-    pkgs.append({"path": "m/e", "name": "e", "files": [{"name": "e/e.go", "src": "package e\n\n// PT0 is restricted to its package.\n// @packageonly\ntype PT0 struct{ X int }\n"}]})
+    # (both packages have a first file a_ops.go of the same size, so that the offsets agree in the per-package file sets of go vet too)
+    ehdr = ("// @ignore %s\n" % v["dign"]) if v.get("dign") else ""
+    e_ops = ehdr + "package e\n\n// Purge is for e only\n// @packageonly\nfunc (p PT0) Purge() {}\n"
+    assert len(e_ops) == len(pkgs[0]["files"][0]["src"]), (len(e_ops), len(pkgs[0]["files"][0]["src"]))
+    pkgs.append({"path": "m/e", "name": "e", "files": [
+        {"name": "e/a_ops.go", "src": e_ops},
+        {"name": "e/e.go", "src": ehdr + "package e\n\n// PT0 is restricted to its package.\n// @packageonly\ntype PT0 struct{ X int }\n"}]})
     ls = ["package u", "", "import ("] + (['\t"unsafe"', ""] if v.get("unsafe") else []) + ['\t"m/d"', '\t"m/e"', ")", ""] + \
          (["var _ = unsafe.Sizeof(0)", ""] if v.get("unsafe") else []) + ["// UT is u's own immutable type.", "// @immutable", "type UT struct{ X int }", "",
           "// Get hands out a d.T.", "func Get() *d.T { return d.NewT() }", "", "// RT re-exports d's type under a name of u.", "type RT = d.T", "", "// A3u claims an interface it does not implement.", "// @implements d.I",
